@@ -87,38 +87,24 @@ def determinism(n):
 
 
 def sensitivity():
+    """Every seeded change (seeded/<id>/patch.diff) must make the quick check of its property exit 1 with a VIOLATION
+    line, except the ones listed in seeded/expected_misses.json with the reason why this technique cannot see them."""
+    sys.path.insert(0, os.path.join(VERIF, "tools"))
+    import seeded_matrix
+    ids = [a for a in sys.argv[2:]] or sorted(x for x in os.listdir(seeded_matrix.SEEDED) if os.path.isdir(os.path.join(seeded_matrix.SEEDED, x)))
+    expected = json.load(open(os.path.join(seeded_matrix.SEEDED, "expected_misses.json")))
     res = {"mutants": [], "ok": True}
-    sdir = os.path.join(VERIF, "seeded")
-    only = [a for a in sys.argv[2:]]
-    scratch_root = tempfile.mkdtemp(prefix="simmut", dir="/var/tmp")
-    try:
-        for fn in sorted(os.listdir(sdir)):
-            patchf = os.path.join(sdir, fn, "patch.diff")
-            if not os.path.exists(patchf) or (only and fn not in only):
-                continue
-            props = [fn.split("_")[0]]
-            scratch = os.path.join(scratch_root, fn)
-            os.makedirs(scratch)
-            shutil.copytree("/repo/src", os.path.join(scratch, "src"), ignore=shutil.ignore_patterns("*.o", "*.lo", ".libs", ".deps", "*.la"))
-            p = subprocess.run(["patch", "-p1", "-s", "-d", scratch, "-i", patchf], stdout=subprocess.PIPE, stderr=subprocess.STDOUT, text=True)
-            if p.returncode != 0:
-                res["mutants"].append({"mutant": fn, "error": "patch does not apply: " + p.stdout[-300:]})
+    with ThreadPoolExecutor(int(os.environ.get("JOBS", "3"))) as ex:
+        for sid, r in ex.map(seeded_matrix.one, ids):
+            prop = sid.split("_")[0]
+            caught = isinstance(r.get(prop), dict) and r[prop].get("caught")
+            res["mutants"].append({"id": sid, "property": prop, "caught": bool(caught), "expected_miss": sid in expected})
+            if not caught and sid not in expected:
                 res["ok"] = False
-                continue
-            for prop in props:
-                out = os.path.join(scratch, "out_" + prop)
-                os.makedirs(out)
-                env = dict(os.environ, VERIF_REPO=scratch, VERIF_OUT=out, VERIF_SCALE=os.environ.get("VERIF_MUT_SCALE", "1"))
-                t0 = time.time()
-                r = subprocess.run([sys.executable, os.path.join(VERIF, "run_check.py"), prop, "--tier", "quick"], stdout=subprocess.PIPE, stderr=subprocess.STDOUT, text=True, env=env)
-                caught = r.returncode == 1 and ("VIOLATION property=%s" % prop) in r.stdout
-                first = [l for l in r.stdout.split("\n") if l.startswith("  ")][:2]
-                res["mutants"].append({"mutant": fn, "property": prop, "caught": caught, "exit": r.returncode, "wall_s": round(time.time() - t0, 1), "first": first})
-                if not caught:
-                    res["ok"] = False
-            shutil.rmtree(scratch, ignore_errors=True)
-    finally:
-        shutil.rmtree(scratch_root, ignore_errors=True)
+            if caught and sid in expected:
+                res["mutants"][-1]["note"] = "listed as an expected miss but caught"
+    res["caught"] = sum(1 for m in res["mutants"] if m["caught"])
+    res["total"] = len(res["mutants"])
     return res
 
 
